@@ -177,14 +177,29 @@ def equal_cost_shortcut(ctx, clause: str):
     rd = ReachingDefs(f.node)
     costs = ("ins_cost", "del_cost", "sub_cost")
     br = None
+    from sa.inline import Inliner as _InlEq
+    _inl_eq = _InlEq(f.node, rd)
     for n in own_nodes(f.node):
-        if isinstance(n, ast.If) and isinstance(n.test, ast.Compare) and all(
-                any(u(x) == c for x in [n.test.left] + n.test.comparators) for c in costs):
-            br = n
+        # the test that all three costs are equal (one chained comparison, an `and` of comparisons, a named flag ...)
+        if isinstance(n, ast.If):
+            names_ = {x.id for x in ast.walk(_inl_eq.expand(n.test)) if isinstance(x, ast.Name)}
+            if all(c in names_ for c in costs) and br is None:
+                br = n
     if br is None:
         raise AnalysisError("the equal-cost branch of the kernel was not found")
-    ok_ops = all(isinstance(o, ast.Eq) for o in br.test.ops[:2]) and isinstance(br.test.ops[-1], ast.Gt)
-    col.ob("G16", clause, f"{where}::equal-cost-test", ok_ops and u(br.test.comparators[-1]) in ("0.0", "0"),
+    # as a truth table over the three costs: the shortcut is taken exactly when ins == del == sub > 0
+    from sa.inteval import NotEvaluable as _NEq, int_eval as _ieq
+    ok_ops = True
+    try:
+        tx = _inl_eq.expand(br.test)
+        for a_ in (0, 1, 2):
+            for b_ in (0, 1, 2):
+                for c_ in (0, 1, 2):
+                    if bool(_ieq(tx, {"ins_cost": a_, "del_cost": b_, "sub_cost": c_})) != (a_ == b_ == c_ and c_ > 0):
+                        ok_ops = False
+    except _NEq:
+        ok_ops = False
+    col.ob("G16", clause, f"{where}::equal-cost-test", ok_ops,
            f"the shortcut is taken under `{u(br.test)}`; expected ins == del == sub > 0", rel, br.lineno, sample=u(br.test))
     # the branch interpreted for both values of return_mistakes: afterwards the three costs are 1, the multiplier is the
     # common cost when distances were requested and 1 when error counts were, and the mistakes table is off
